@@ -1,5 +1,5 @@
 """C20 — DynamicOpticalSystem: correspondence with the Lean scheduler model + direct oracle."""
-from harness.common import rat, MachineryError
+from harness.common import rat, MachineryError, shrink_list
 
 EPS = 1e-6
 TINY = 2.0 ** -22      # 2.4e-7: lets sums of a few TINY fall on either side of the 1e-6 threshold
@@ -204,8 +204,14 @@ DIRECTED = [
 def check_history(ctx, style, ops, want_model=True):
     obs = run_real(ops)
     bad = oracle(obs)
+    seen = set()
     for key, what in bad:
-        ctx.violation(key, what, {'ops': ops})
+        if key in seen:
+            continue
+        seen.add(key)
+        small = shrink_list(ops, lambda o: any(k == key for k, _ in oracle(run_real(o))))
+        what_small = [w for k, w in oracle(run_real(small)) if k == key]
+        ctx.violation(key, what_small[0] if what_small else what, {'ops': small})
     nfire = sum(1 for o in obs for e in o['events'] if e[0] == 'F')
     ctx.count('style:' + style)
     ctx.count('evolves', len(obs))
